@@ -5,6 +5,7 @@ import json, os, sys
 ROOT = os.path.dirname(os.path.dirname(os.path.abspath(__file__)))
 sys.path.insert(0, os.path.join(ROOT, 'lib'))
 import registry
+registry.load()
 
 props = [json.loads(l) for l in open(os.path.join(ROOT, 'properties.jsonl')) if l.strip()]
 checks, na = [], []
